@@ -119,8 +119,9 @@ func c17R1one(c *Ctx, m *runnerModel, f *Func, x *expander, e *entFn, dispatch *
 			}
 		}
 		okFresh, why := vobj != nil, "the argument list is not a local"
-		if vobj != nil {
-			why = "the argument list is made empty in this call and only appended to by the evaluation loop"
+		var freshLocal func(vobj types.Object, depth int) (bool, string)
+		freshLocal = func(vobj types.Object, depth int) (bool, string) {
+			okFresh, why := true, "the argument list is made empty in this call and only appended to by the evaluation loop"
 			for _, a := range e.assigns[vobj] {
 				switch as := a.(type) {
 				case *ast.ValueSpec:
@@ -150,12 +151,24 @@ func c17R1one(c *Ctx, m *runnerModel, f *Func, x *expander, e *entFn, dispatch *
 						if cl, ok := rhs.(*ast.CompositeLit); ok && len(cl.Elts) == 0 {
 							continue
 						}
+						// a copy of another local of this call that is itself made here and only filled here
+						if rid, ok := rhs.(*ast.Ident); ok && depth < 3 {
+							if rv, isVar := info.Uses[rid].(*types.Var); isVar && !rv.IsField() && rv.Pkg() != nil && rv.Parent() != rv.Pkg().Scope() && len(e.assigns[rv]) > 0 {
+								if ok2, _ := freshLocal(rv, depth+1); ok2 {
+									continue
+								}
+							}
+						}
 						okFresh, why = false, "the argument list is assigned "+shorten(exprStr(as.Rhs[i]), 80)+": it can be a list that was not evaluated in this activation (kept from an earlier execution of the statement, say)"
 					}
 				default:
 					okFresh, why = false, "the argument list is assigned in an unrecognised way"
 				}
 			}
+			return okFresh, why
+		}
+		if vobj != nil {
+			okFresh, why = freshLocal(vobj, 0)
 		}
 		c.ob("C17.R3", f.Name+"/arguments-evaluated-now"+sfx, w.Pos(dispatch.Pos()), okFresh, why)
 	}
